@@ -62,6 +62,7 @@ Proof.
 Qed.
 
 Section Fuel.
+Variable fl : flags.
 Variable ns : str -> option str.
 Variable pe : nat -> list tok -> res (expr * list tok).
 Variable lf : nat.
@@ -154,7 +155,7 @@ Proof.
   exfalso. eapply expect_nofuel; eauto.
 Qed.
 
-Lemma p_nodetest_len : shrinks (p_nodetest ns).
+Lemma p_nodetest_len : shrinks (p_nodetest fl ns).
 Proof.
   unfold p_nodetest. intros ts x r H.
   destruct (look_c ts ch_lparen 1).
@@ -175,43 +176,45 @@ Proof.
       destruct (expect ch_colon (tl ts)) as [ts1'| |] eqn:E1; try discriminate. exp_len E1. inversion E0; subst.
       pose proof (tl_len ts). lia. }
     destruct (N.eqb (tokc ts1) ch_asterisk); [inversion H; subst; pose proof (tl_len ts1); lia|].
-    destruct (is_nodetest_tok (cur_tok ts1)); [|discriminate]. inversion H; subst. pose proof (tl_len ts1). lia.
+    destruct (is_nodetest_tok (cur_tok ts1)); [|discriminate].
+    destruct (fx_name fl && negb (valid_ncname (cur_tok ts1)))%bool; [discriminate|].
+    inversion H; subst. pose proof (tl_len ts1). lia.
 Qed.
 
-Lemma p_nodetest_nofuel : forall ts, p_nodetest ns ts <> Fuel.
+Lemma p_nodetest_nofuel : forall ts, p_nodetest fl ns ts <> Fuel.
 Proof.
   unfold p_nodetest, p_literal, expect. intros ts.
   repeat nf1; discriminate.
 Qed.
 
-Lemma p_basis_len : forall ts st real r, p_basis ns ts = Ok (st, real, r) -> length r <= length ts.
+Lemma p_basis_len : forall ts st real r, p_basis fl ns ts = Ok (st, real, r) -> length r <= length ts.
 Proof.
   unfold p_basis. intros ts st real r H. pose proof (tl_len ts). pose proof (tl_len (tl ts)).
   destruct (look_s ts gen_xpc_kw_axis_sep 1).
   { destruct (axis_of_name (cur_tok ts)); [|discriminate].
-    destruct (p_nodetest ns (tl (tl ts))) as [[t ts1]| |] eqn:E; try discriminate. apply p_nodetest_len in E.
+    destruct (p_nodetest fl ns (tl (tl ts))) as [[t ts1]| |] eqn:E; try discriminate. apply p_nodetest_len in E.
     inversion H; subst. lia. }
   destruct (N.eqb (tokc ts) ch_at).
-  { destruct (p_nodetest ns (tl ts)) as [[t ts1]| |] eqn:E; try discriminate. apply p_nodetest_len in E.
+  { destruct (p_nodetest fl ns (tl ts)) as [[t ts1]| |] eqn:E; try discriminate. apply p_nodetest_len in E.
     inversion H; subst. lia. }
   destruct (N.eqb (tokc ts) ch_solidus).
   { destruct (is_axis_tok (cur_tok (tl ts)) || is_nodetest_tok (cur_tok (tl ts)))%bool; inversion H; subst. lia. }
-  destruct (p_nodetest ns ts) as [[t ts1]| |] eqn:E; try discriminate. apply p_nodetest_len in E.
+  destruct (p_nodetest fl ns ts) as [[t ts1]| |] eqn:E; try discriminate. apply p_nodetest_len in E.
   inversion H; subst. lia.
 Qed.
 
-Lemma p_basis_nofuel : forall ts, p_basis ns ts <> Fuel.
+Lemma p_basis_nofuel : forall ts, p_basis fl ns ts <> Fuel.
 Proof.
   unfold p_basis. intros ts.
   repeat match goal with
-         | |- context [p_nodetest ns ?X] => let E := fresh in destruct (p_nodetest ns X) as [[? ?]| |] eqn:E;
+         | |- context [p_nodetest fl ns ?X] => let E := fresh in destruct (p_nodetest fl ns X) as [[? ?]| |] eqn:E;
                                             [| |exfalso; eapply p_nodetest_nofuel; eauto]
          | |- context [match ?X with _ => _ end] => destruct X; try discriminate
          | |- context [if ?X then _ else _] => destruct X; try discriminate
          end.
 Qed.
 
-Lemma p_step_len : forall d, shrinks (p_step ns pe lf d).
+Lemma p_step_len : forall d, shrinks (p_step fl ns pe lf d).
 Proof.
   unfold p_step. intros d ts x r H. destruct ts as [|t q]; [discriminate|].
   destruct (str_eqb t gen_xpc_kw_dot).
@@ -219,20 +222,20 @@ Proof.
   destruct (str_eqb t gen_xpc_kw_dotdot).
   { destruct (N.eqb (tokc (tl (t :: q))) ch_lbrack); inversion H; subst. cbn. lia. }
   match type of H with (if ?X then _ else _) = _ => destruct X end; [|discriminate].
-  destruct (p_basis ns (t :: q)) as [[[st real] ts1]| |] eqn:E; try discriminate. apply p_basis_len in E.
+  destruct (p_basis fl ns (t :: q)) as [[[st real] ts1]| |] eqn:E; try discriminate. apply p_basis_len in E.
   destruct real.
   - destruct (p_preds pe lf d ts1) as [[ps ts2]| |] eqn:E2; try discriminate. apply p_preds_len in E2.
     destruct st as [[a t0] ?]. inversion H; subst. lia.
   - inversion H; subst. lia.
 Qed.
 
-Lemma p_step_fuel : forall d, nofuel (p_step ns pe lf d).
+Lemma p_step_fuel : forall d, nofuel (p_step fl ns pe lf d).
 Proof.
   unfold p_step. intros d ts HB Hm. destruct ts as [|t q]; [discriminate|].
   destruct (str_eqb t gen_xpc_kw_dot). { destruct (N.eqb (tokc (tl (t :: q))) ch_lbrack); discriminate. }
   destruct (str_eqb t gen_xpc_kw_dotdot). { destruct (N.eqb (tokc (tl (t :: q))) ch_lbrack); discriminate. }
   match goal with |- (if ?X then _ else _) <> _ => destruct X end; [|discriminate].
-  destruct (p_basis ns (t :: q)) as [[[st real] ts1]| |] eqn:E; try discriminate.
+  destruct (p_basis fl ns (t :: q)) as [[[st real] ts1]| |] eqn:E; try discriminate.
   2:{ exfalso. eapply p_basis_nofuel; eauto. }
   apply p_basis_len in E. destruct real; [|discriminate].
   pose proof (p_preds_fuel lf d ts1 ltac:(lia) ltac:(lia)) as F.
@@ -240,42 +243,42 @@ Proof.
   destruct st as [[a t0] ?]. discriminate.
 Qed.
 
-Lemma p_steps_len : forall m d, shrinks (p_steps ns pe lf m d).
+Lemma p_steps_len : forall m d, shrinks (p_steps fl ns pe lf m d).
 Proof.
   induction m as [|m IH]; intros d ts x r H; cbn [p_steps] in H; [discriminate|].
-  destruct (p_step ns pe lf d ts) as [[s ts1]| |] eqn:E; try discriminate. apply p_step_len in E.
+  destruct (p_step fl ns pe lf d ts) as [[s ts1]| |] eqn:E; try discriminate. apply p_step_len in E.
   destruct (N.eqb (tokc ts1) ch_solidus); [|inversion H; subst; lia].
-  destruct (p_steps ns pe lf m d (tl ts1)) as [[q ts2]| |] eqn:E2; try discriminate. apply IH in E2.
+  destruct (p_steps fl ns pe lf m d (tl ts1)) as [[q ts2]| |] eqn:E2; try discriminate. apply IH in E2.
   inversion H; subst. pose proof (tl_len ts1). lia.
 Qed.
 
-Lemma p_steps_fuel : forall m d ts, length ts <= B -> length ts < lf -> length ts < m -> p_steps ns pe lf m d ts <> Fuel.
+Lemma p_steps_fuel : forall m d ts, length ts <= B -> length ts < lf -> length ts < m -> p_steps fl ns pe lf m d ts <> Fuel.
 Proof.
   induction m as [|m IH]; intros d ts HB Hl Hm; [lia|]. cbn [p_steps].
   pose proof (p_step_fuel d ts HB Hl) as F.
-  destruct (p_step ns pe lf d ts) as [[s ts1]| |] eqn:E; try discriminate; [|congruence]. apply p_step_len in E.
+  destruct (p_step fl ns pe lf d ts) as [[s ts1]| |] eqn:E; try discriminate; [|congruence]. apply p_step_len in E.
   destruct (N.eqb (tokc ts1) ch_solidus) eqn:E1; [|discriminate].
   destruct (tokc_cons _ _ E1 ltac:(chr)) as (t & q & ->). cbn [tl]. cbn [length] in *.
   specialize (IH d q ltac:(lia) ltac:(lia) ltac:(lia)).
-  destruct (p_steps ns pe lf m d q) as [[? ?]| |]; try discriminate. congruence.
+  destruct (p_steps fl ns pe lf m d q) as [[? ?]| |]; try discriminate. congruence.
 Qed.
 
-Lemma p_locpath_len : forall d, shrinks (p_locpath ns pe lf d).
+Lemma p_locpath_len : forall d, shrinks (p_locpath fl ns pe lf d).
 Proof.
   unfold p_locpath. intros d ts x r H. pose proof (tl_len ts).
   match type of H with (if ?X then _ else _) = _ => destruct X end.
-  - match type of H with context [p_steps ns pe lf lf d ?T] => destruct (p_steps ns pe lf lf d T) as [[ss ts2]| |] eqn:E end;
+  - match type of H with context [p_steps fl ns pe lf lf d ?T] => destruct (p_steps fl ns pe lf lf d T) as [[ss ts2]| |] eqn:E end;
       try discriminate.
     apply p_steps_len in E. inversion H; subst. destruct (N.eqb (tokc ts) ch_solidus); lia.
   - inversion H; subst. destruct (N.eqb (tokc ts) ch_solidus); lia.
 Qed.
 
-Lemma p_locpath_fuel : forall d, nofuel (p_locpath ns pe lf d).
+Lemma p_locpath_fuel : forall d, nofuel (p_locpath fl ns pe lf d).
 Proof.
   unfold p_locpath. intros d ts HB Hm. pose proof (tl_len ts).
   match goal with |- (if ?X then _ else _) <> _ => destruct X end; [|discriminate].
-  match goal with |- context [p_steps ns pe lf lf d ?T] =>
-    pose proof (p_steps_fuel lf d T) as F; destruct (p_steps ns pe lf lf d T) as [[ss ts2]| |] end; try discriminate.
+  match goal with |- context [p_steps fl ns pe lf lf d ?T] =>
+    pose proof (p_steps_fuel lf d T) as F; destruct (p_steps fl ns pe lf lf d T) as [[ss ts2]| |] end; try discriminate.
   exfalso. apply F; try reflexivity; destruct (N.eqb (tokc ts) ch_solidus); lia.
 Qed.
 
@@ -295,7 +298,7 @@ Proof.
   repeat nf1; discriminate.
 Qed.
 
-Lemma p_funcall_len : forall d, shrinks (p_funcall ns pe lf d).
+Lemma p_funcall_len : forall d, shrinks (p_funcall fl ns pe lf d).
 Proof.
   unfold p_funcall. intros d ts x r H. pose proof (tl_len ts).
   destruct (look_c ts ch_colon 1).
@@ -312,7 +315,7 @@ Proof.
       inversion H; subst. lia.
 Qed.
 
-Lemma p_funcall_fuel : forall d, nofuel (p_funcall ns pe lf d).
+Lemma p_funcall_fuel : forall d, nofuel (p_funcall fl ns pe lf d).
 Proof.
   unfold p_funcall. intros d ts HB Hm. pose proof (tl_len ts).
   destruct (look_c ts ch_colon 1).
@@ -331,15 +334,15 @@ Proof.
       destruct (p_call_args pe lf d (tl ts)) as [[a ts2]| |]; try discriminate. congruence.
 Qed.
 
-Lemma primary_group_cons : forall ts, primary_kind ts = PkGroup -> exists t r, ts = t :: r.
+Lemma primary_group_cons : forall ts, primary_kind fl ts = PkGroup -> exists t r, ts = t :: r.
 Proof.
-  intros [|t r] H; [|eauto]. cbv in H. discriminate.
+  intros [|t r] H; [|eauto]. destruct fl as [f1 f2 f3]. destruct f3; cbv in H; discriminate.
 Qed.
 
-Lemma p_primary_len : forall d, shrinks (p_primary ns pe lf d).
+Lemma p_primary_len : forall d, shrinks (p_primary fl ns pe lf d).
 Proof.
   unfold p_primary. intros d ts x r H. pose proof (tl_len ts).
-  destruct (primary_kind ts).
+  destruct (primary_kind fl ts).
   - destruct (p_literal ts) as [[s ts1]| |] eqn:E; try discriminate. apply p_literal_len in E. inversion H; subst. lia.
   - apply p_qname_len in H. lia.
   - destruct (pe d (tl ts)) as [[e ts1]| |] eqn:E; try discriminate. apply pe_len in E.
@@ -349,10 +352,10 @@ Proof.
   - eapply p_locpath_len; eauto.
 Qed.
 
-Lemma p_primary_fuel : forall d, nofuel (p_primary ns pe lf d).
+Lemma p_primary_fuel : forall d, nofuel (p_primary fl ns pe lf d).
 Proof.
   unfold p_primary. intros d ts HB Hm.
-  destruct (primary_kind ts) eqn:K.
+  destruct (primary_kind fl ts) eqn:K.
   - unfold p_literal. destruct (is_literal (cur_tok ts)); discriminate.
   - apply p_qname_nofuel.
   - destruct (primary_group_cons _ K) as (t & q & ->). cbn [tl]. cbn [length] in *.
@@ -364,101 +367,101 @@ Proof.
   - apply p_locpath_fuel; assumption.
 Qed.
 
-Lemma p_filter_len : forall d, shrinks (p_filter ns pe lf d).
+Lemma p_filter_len : forall d, shrinks (p_filter fl ns pe lf d).
 Proof.
   unfold p_filter. intros d ts x r H.
-  destruct (p_primary ns pe lf d ts) as [[p ts1]| |] eqn:E; try discriminate. apply p_primary_len in E.
+  destruct (p_primary fl ns pe lf d ts) as [[p ts1]| |] eqn:E; try discriminate. apply p_primary_len in E.
   destruct (N.eqb (tokc ts1) ch_lbrack); [|inversion H; subst; lia].
   destruct (p_preds pe lf d ts1) as [[ps ts2]| |] eqn:E2; try discriminate. apply p_preds_len in E2.
   destruct (N.eqb (tokc ts2) ch_solidus); [|inversion H; subst; lia].
-  destruct (p_steps ns pe lf lf d (tl ts2)) as [[ss ts3]| |] eqn:E3; try discriminate. apply p_steps_len in E3.
+  destruct (p_steps fl ns pe lf lf d (tl ts2)) as [[ss ts3]| |] eqn:E3; try discriminate. apply p_steps_len in E3.
   inversion H; subst. pose proof (tl_len ts2). lia.
 Qed.
 
-Lemma p_filter_fuel : forall d, nofuel (p_filter ns pe lf d).
+Lemma p_filter_fuel : forall d, nofuel (p_filter fl ns pe lf d).
 Proof.
   unfold p_filter. intros d ts HB Hm.
   pose proof (p_primary_fuel d ts HB Hm) as F.
-  destruct (p_primary ns pe lf d ts) as [[p ts1]| |] eqn:E; try discriminate; [|congruence]. apply p_primary_len in E.
+  destruct (p_primary fl ns pe lf d ts) as [[p ts1]| |] eqn:E; try discriminate; [|congruence]. apply p_primary_len in E.
   destruct (N.eqb (tokc ts1) ch_lbrack); [|discriminate].
   pose proof (p_preds_fuel lf d ts1 ltac:(lia) ltac:(lia)) as F2.
   destruct (p_preds pe lf d ts1) as [[ps ts2]| |] eqn:E2; try discriminate; [|congruence]. apply p_preds_len in E2.
   destruct (N.eqb (tokc ts2) ch_solidus); [|discriminate]. pose proof (tl_len ts2).
   pose proof (p_steps_fuel lf d (tl ts2) ltac:(lia) ltac:(lia) ltac:(lia)) as F3.
-  destruct (p_steps ns pe lf lf d (tl ts2)) as [[ss ts3]| |]; try discriminate. congruence.
+  destruct (p_steps fl ns pe lf lf d (tl ts2)) as [[ss ts3]| |]; try discriminate. congruence.
 Qed.
 
-Lemma p_path_len : forall d, shrinks (p_path ns pe lf d).
+Lemma p_path_len : forall d, shrinks (p_path fl ns pe lf d).
 Proof.
   unfold p_path. intros d ts x r H.
-  destruct (p_filter ns pe lf d ts) as [[p ts1]| |] eqn:E; try discriminate. apply p_filter_len in E.
+  destruct (p_filter fl ns pe lf d ts) as [[p ts1]| |] eqn:E; try discriminate. apply p_filter_len in E.
   destruct (N.eqb (tokc ts1) ch_solidus); [|inversion H; subst; lia].
-  destruct (p_steps ns pe lf lf d (tl ts1)) as [[ss ts3]| |] eqn:E3; try discriminate. apply p_steps_len in E3.
+  destruct (p_steps fl ns pe lf lf d (tl ts1)) as [[ss ts3]| |] eqn:E3; try discriminate. apply p_steps_len in E3.
   inversion H; subst. pose proof (tl_len ts1). lia.
 Qed.
 
-Lemma p_path_fuel : forall d, nofuel (p_path ns pe lf d).
+Lemma p_path_fuel : forall d, nofuel (p_path fl ns pe lf d).
 Proof.
   unfold p_path. intros d ts HB Hm.
   pose proof (p_filter_fuel d ts HB Hm) as F.
-  destruct (p_filter ns pe lf d ts) as [[p ts1]| |] eqn:E; try discriminate; [|congruence]. apply p_filter_len in E.
+  destruct (p_filter fl ns pe lf d ts) as [[p ts1]| |] eqn:E; try discriminate; [|congruence]. apply p_filter_len in E.
   destruct (N.eqb (tokc ts1) ch_solidus); [|discriminate]. pose proof (tl_len ts1).
   pose proof (p_steps_fuel lf d (tl ts1) ltac:(lia) ltac:(lia) ltac:(lia)) as F3.
-  destruct (p_steps ns pe lf lf d (tl ts1)) as [[ss ts3]| |]; try discriminate. congruence.
+  destruct (p_steps fl ns pe lf lf d (tl ts1)) as [[ss ts3]| |]; try discriminate. congruence.
 Qed.
 
-Lemma p_union_rest_len : forall m d, shrinks (p_union_rest ns pe lf m d).
+Lemma p_union_rest_len : forall m d, shrinks (p_union_rest fl ns pe lf m d).
 Proof.
   induction m as [|m IH]; intros d ts x r H; cbn [p_union_rest] in H; [discriminate|].
   destruct (N.eqb (tokc ts) ch_bar); [|inversion H; subst; lia].
   destruct (tl ts) as [|t q] eqn:ET; [discriminate|]. rewrite <- ET in H.
-  destruct (p_path ns pe lf d (tl ts)) as [[e ts2]| |] eqn:E; try discriminate. apply p_path_len in E.
-  destruct (p_union_rest ns pe lf m d ts2) as [[l ts3]| |] eqn:E3; try discriminate. apply IH in E3.
+  destruct (p_path fl ns pe lf d (tl ts)) as [[e ts2]| |] eqn:E; try discriminate. apply p_path_len in E.
+  destruct (p_union_rest fl ns pe lf m d ts2) as [[l ts3]| |] eqn:E3; try discriminate. apply IH in E3.
   inversion H; subst. pose proof (tl_len ts). lia.
 Qed.
 
 Lemma p_union_rest_fuel : forall m d ts, length ts <= B -> length ts < lf -> length ts < m ->
-  p_union_rest ns pe lf m d ts <> Fuel.
+  p_union_rest fl ns pe lf m d ts <> Fuel.
 Proof.
   induction m as [|m IH]; intros d ts HB Hl Hm; [lia|]. cbn [p_union_rest].
   destruct (N.eqb (tokc ts) ch_bar) eqn:E0; [|discriminate].
   destruct (tokc_cons _ _ E0 ltac:(chr)) as (t & q & ->). cbn [tl]. cbn [length] in *.
   destruct q as [|t1 q1] eqn:EQ; [discriminate|]. rewrite <- EQ in *.
   pose proof (p_path_fuel d q ltac:(lia) ltac:(lia)) as F.
-  destruct (p_path ns pe lf d q) as [[e ts2]| |] eqn:E; try discriminate; [|congruence]. apply p_path_len in E.
+  destruct (p_path fl ns pe lf d q) as [[e ts2]| |] eqn:E; try discriminate; [|congruence]. apply p_path_len in E.
   specialize (IH d ts2 ltac:(lia) ltac:(lia) ltac:(lia)).
-  destruct (p_union_rest ns pe lf m d ts2) as [[? ?]| |]; try discriminate. congruence.
+  destruct (p_union_rest fl ns pe lf m d ts2) as [[? ?]| |]; try discriminate. congruence.
 Qed.
 
-Lemma p_union_len : forall d, shrinks (p_union ns pe lf d).
+Lemma p_union_len : forall d, shrinks (p_union fl ns pe lf d).
 Proof.
   unfold p_union. intros d ts x r H.
-  destruct (p_path ns pe lf d ts) as [[e ts1]| |] eqn:E; try discriminate. apply p_path_len in E.
-  destruct (p_union_rest ns pe lf lf d ts1) as [[l ts2]| |] eqn:E2; try discriminate. apply p_union_rest_len in E2.
+  destruct (p_path fl ns pe lf d ts) as [[e ts1]| |] eqn:E; try discriminate. apply p_path_len in E.
+  destruct (p_union_rest fl ns pe lf lf d ts1) as [[l ts2]| |] eqn:E2; try discriminate. apply p_union_rest_len in E2.
   destruct l; inversion H; subst; lia.
 Qed.
 
-Lemma p_union_fuel : forall d, nofuel (p_union ns pe lf d).
+Lemma p_union_fuel : forall d, nofuel (p_union fl ns pe lf d).
 Proof.
   unfold p_union. intros d ts HB Hm.
   pose proof (p_path_fuel d ts HB Hm) as F.
-  destruct (p_path ns pe lf d ts) as [[e ts1]| |] eqn:E; try discriminate; [|congruence]. apply p_path_len in E.
+  destruct (p_path fl ns pe lf d ts) as [[e ts1]| |] eqn:E; try discriminate; [|congruence]. apply p_path_len in E.
   pose proof (p_union_rest_fuel lf d ts1 ltac:(lia) ltac:(lia) ltac:(lia)) as F2.
-  destruct (p_union_rest ns pe lf lf d ts1) as [[l ts2]| |]; try discriminate; [|congruence].
+  destruct (p_union_rest fl ns pe lf lf d ts1) as [[l ts2]| |]; try discriminate; [|congruence].
   destruct l; discriminate.
 Qed.
 
-Lemma p_unary_len : forall m d, shrinks (p_unary ns pe lf m d).
+Lemma p_unary_len : forall m d, shrinks (p_unary fl ns pe lf m d).
 Proof.
   induction m as [|m IH]; intros d ts x r H; cbn [p_unary] in H; [discriminate|].
   destruct (N.eqb (tokc ts) ch_hyphen); [|eapply p_union_len; eauto].
   destruct (tl ts) as [|t q] eqn:ET; [discriminate|]. rewrite <- ET in H.
   destruct (Nat.ltb gen_xpc_max_nesting (S d)); [discriminate|].
-  destruct (p_unary ns pe lf m (S d) (tl ts)) as [[e ts2]| |] eqn:E; try discriminate. apply IH in E.
+  destruct (p_unary fl ns pe lf m (S d) (tl ts)) as [[e ts2]| |] eqn:E; try discriminate. apply IH in E.
   inversion H; subst. pose proof (tl_len ts). lia.
 Qed.
 
-Lemma p_unary_fuel : forall m d ts, length ts <= B -> length ts < lf -> length ts < m -> p_unary ns pe lf m d ts <> Fuel.
+Lemma p_unary_fuel : forall m d ts, length ts <= B -> length ts < lf -> length ts < m -> p_unary fl ns pe lf m d ts <> Fuel.
 Proof.
   induction m as [|m IH]; intros d ts HB Hl Hm; [lia|]. cbn [p_unary].
   destruct (N.eqb (tokc ts) ch_hyphen) eqn:E0; [|apply p_union_fuel; assumption].
@@ -466,7 +469,7 @@ Proof.
   destruct q as [|t1 q1] eqn:EQ; [discriminate|]. rewrite <- EQ in *.
   destruct (Nat.ltb gen_xpc_max_nesting (S d)); [discriminate|].
   specialize (IH (S d) q ltac:(lia) ltac:(lia) ltac:(lia)).
-  destruct (p_unary ns pe lf m (S d) q) as [[? ?]| |]; try discriminate. congruence.
+  destruct (p_unary fl ns pe lf m (S d) q) as [[? ?]| |]; try discriminate. congruence.
 Qed.
 
 Lemma p_lrest_len : forall sub lvl, (shrinks sub) -> forall m acc, shrinks (p_lrest sub lvl m acc).
@@ -511,7 +514,7 @@ Proof.
   destruct (p_rlevel sub lvl m ts2) as [[? ?]| |]; try discriminate. congruence.
 Qed.
 
-Lemma p_level_both : forall lvl d, (shrinks (p_level ns pe lf lvl d)) /\ (nofuel (p_level ns pe lf lvl d)).
+Lemma p_level_both : forall lvl d, (shrinks (p_level fl ns pe lf lvl d)) /\ (nofuel (p_level fl ns pe lf lvl d)).
 Proof.
   induction lvl as [|l IH]; intros d.
   - split; cbn [p_level].
@@ -520,56 +523,56 @@ Proof.
   - destruct (IH d) as [IL IF]. split; cbn [p_level]; destruct (right_nested (S l)).
     + intros ts x r H. eapply p_rlevel_len; eauto.
     + intros ts x r H.
-      destruct (p_level ns pe lf l d ts) as [[a ts1]| |] eqn:E; try discriminate. apply IL in E.
+      destruct (p_level fl ns pe lf l d ts) as [[a ts1]| |] eqn:E; try discriminate. apply IL in E.
       apply (p_lrest_len _ _ IL) in H. lia.
     + intros ts HB Hm. apply p_rlevel_fuel; auto.
     + intros ts HB Hm. pose proof (IF ts HB Hm) as F.
-      destruct (p_level ns pe lf l d ts) as [[a ts1]| |] eqn:E; try discriminate; [|congruence]. apply IL in E.
+      destruct (p_level fl ns pe lf l d ts) as [[a ts1]| |] eqn:E; try discriminate; [|congruence]. apply IL in E.
       apply p_lrest_fuel; auto; lia.
 Qed.
 
 End Fuel.
 
-Lemma p_expr_both : forall ns n d ts,
-  (forall e r, p_expr ns n d ts = Ok (e, r) -> length r <= length ts) /\
-  (length ts < n -> p_expr ns n d ts <> Fuel).
+Lemma p_expr_both : forall fl ns n d ts,
+  (forall e r, p_expr fl ns n d ts = Ok (e, r) -> length r <= length ts) /\
+  (length ts < n -> p_expr fl ns n d ts <> Fuel).
 Proof.
-  intros ns. induction n as [|n IH]; intros d ts.
+  intros fl ns. induction n as [|n IH]; intros d ts.
   - split; [discriminate|lia].
   - cbn [p_expr]. destruct (Nat.ltb gen_xpc_max_nesting (S d)); [split; discriminate|].
-    assert (PL : forall d ts e r, p_expr ns n d ts = Ok (e, r) -> length r <= length ts) by (intros; eapply IH; eauto).
-    assert (PF : forall d ts, length ts < n -> p_expr ns n d ts <> Fuel) by (intros; eapply IH; eauto).
-    destruct (p_level_both ns (p_expr ns n) (S n) n PL PF 6 (S d)) as [L F].
+    assert (PL : forall d ts e r, p_expr fl ns n d ts = Ok (e, r) -> length r <= length ts) by (intros; eapply IH; eauto).
+    assert (PF : forall d ts, length ts < n -> p_expr fl ns n d ts <> Fuel) by (intros; eapply IH; eauto).
+    destruct (p_level_both fl ns (p_expr fl ns n) (S n) n PL PF 6 (S d)) as [L F].
     split; [intros; eapply L; eauto|]. intros Hn. apply F; lia.
 Qed.
 
 (* out of fuel is unreachable from the entry point *)
-Theorem parse_fuel_sufficient_m : forall ns ts, parse ns ts <> Fuel.
+Theorem parse_fuel_sufficient_m : forall fl ns ts, parse fl ns ts <> Fuel.
 Proof.
-  intros ns ts. unfold parse.
-  destruct (p_expr_both ns (S (length ts)) 0 ts) as [_ F]. specialize (F ltac:(lia)).
-  destruct (p_expr ns (S (length ts)) 0 ts) as [[e [|t r]]| |]; try discriminate. congruence.
+  intros fl ns ts. unfold parse.
+  destruct (p_expr_both fl ns (S (length ts)) 0 ts) as [_ F]. specialize (F ltac:(lia)).
+  destruct (p_expr fl ns (S (length ts)) 0 ts) as [[e [|t r]]| |]; try discriminate. congruence.
 Qed.
 
 (* the tokenizer reads one character per step by structural recursion: it has no Fuel outcome either *)
-Lemma lex_step_nofuel : forall ns c nx prev acc m, lex_step ns c nx prev acc m <> Fuel.
+Lemma lex_step_nofuel : forall fl ns c nx prev acc m, lex_step fl ns c nx prev acc m <> Fuel.
 Proof.
   intros. unfold lex_step, step_idle, do_delim, flush, map_ns.
   repeat nf1; discriminate.
 Qed.
 
-Lemma lex_nofuel : forall ns rest prev acc m, lex ns rest prev acc m <> Fuel.
+Lemma lex_nofuel : forall fl ns rest prev acc m, lex fl ns rest prev acc m <> Fuel.
 Proof.
-  intros ns. induction rest as [|c r IH]; intros prev acc m; cbn [lex].
+  intros fl ns. induction rest as [|c r IH]; intros prev acc m; cbn [lex].
   - destruct m; try discriminate. unfold flush, map_ns.
     repeat nf1; discriminate.
-  - pose proof (lex_step_nofuel ns c (hd_error r) prev acc m).
-    destruct (lex_step ns c (hd_error r) prev acc m) as [[a1 m1]| |]; try discriminate; [apply IH|congruence].
+  - pose proof (lex_step_nofuel fl ns c (hd_error r) prev acc m).
+    destruct (lex_step fl ns c (hd_error r) prev acc m) as [[a1 m1]| |]; try discriminate; [apply IH|congruence].
 Qed.
 
-Theorem compile_total_m : forall ns s, compile ns s <> Fuel.
+Theorem compile_total_m : forall fl ns s, compile fl ns s <> Fuel.
 Proof.
-  intros ns s. unfold compile, tokenize. pose proof (lex_nofuel ns s [] [] MIdle).
-  destruct (lex ns s [] [] MIdle) as [[|t r]| |]; try discriminate; [|congruence].
+  intros fl ns s. unfold compile, tokenize. pose proof (lex_nofuel fl ns s [] [] MIdle).
+  destruct (lex fl ns s [] [] MIdle) as [[|t r]| |]; try discriminate; [|congruence].
   apply parse_fuel_sufficient_m.
 Qed.
